@@ -163,6 +163,7 @@ func (idx *IndexWriter) WriteToBoltDatabase(db *bbolt.DB) error {
 			if err := tx.Commit(); err != nil {
 				return fmt.Errorf("failed to commit transaction: %w", err)
 			}
+			verifPoint("writer.batch-commit")
 
 			tx, err = db.Begin(true)
 			if err != nil {
@@ -176,6 +177,7 @@ func (idx *IndexWriter) WriteToBoltDatabase(db *bbolt.DB) error {
 	if err := tx.Commit(); err != nil {
 		return fmt.Errorf("failed to commit transaction: %w", err)
 	}
+	verifPoint("writer.final-commit")
 
 	return nil
 }
